@@ -23,7 +23,7 @@ EXPLANATION = ('SCALE reciprocity of 7 seconds_per_step definitions; GRID form o
 TRUSTED = ['C01 for the quantizer side', 'event values are integers']
 NOT_DECIDED = ['the identity itself over floating-point times and canonical forms']
 ASSUMPTIONS = []
-FLOORS = {'SCALE': 7, 'GRID': 12, 'ORIGIN': 6, 'TEMPO': 6, 'RES': 7}
+FLOORS = {'EXTRACT': 5, 'SCALE': 7, 'GRID': 12, 'ORIGIN': 6, 'TEMPO': 6, 'RES': 7}
 
 RENDERERS = [
     # (function holding the seconds_per_step definition, kind, function that writes the times)
@@ -70,6 +70,11 @@ def sps_def(fi):
 
 
 def run(ctx):
+  from rules import C07, C09
+  C09.velocity(ctx)     # extraction re-bins the velocity the renderer wrote: the two maps must be inverse on bin representatives
+  C07.drum_gap(ctx, 'EXTRACT/drum-gap')
+  C07.note_perf_limit(ctx, 'EXTRACT/note-limit')
+  C07.metric_limit(ctx, 'EXTRACT/metric-limit')
   origins = {}
   for fq, kind, writer in RENDERERS:
     fi = canon_renderer(ctx.func(fq))
